@@ -348,6 +348,50 @@ func runLadderFamily(p *Prog, r *Report, family string, nRungsP, nDelegP *int) {
 				}
 				return true
 			})
+			// (b'') a type switch in front of the ladder that lets the other literal kind through:
+			// the rung is then also reached for a syntax node that cannot hold the tested kind
+			// (the element decoder finds no elements in it and the references inside are lost)
+			if containerFn == fn {
+				narrowed := false
+				ast.Inspect(body, func(x ast.Node) bool {
+					if ta, ok := x.(*ast.TypeAssertExpr); ok && ta.Type != nil {
+						if pt, ok := info.TypeOf(ta.Type).(*types.Pointer); ok {
+							if nt := namedOf(pt); nt != nil && nt.Obj().Name() == want.syn {
+								narrowed = true
+							}
+						}
+					}
+					return true
+				})
+				if !narrowed {
+					for _, a := range fn.GuardsAt(container).AllAtoms() {
+						if a == nil || a.TypeX == nil || !a.Pol {
+							continue
+						}
+						hasWant, other := false, ""
+						for _, t := range a.Types {
+							tt := info.TypeOf(t)
+							if tt == nil {
+								continue
+							}
+							if pt, ok := tt.(*types.Pointer); ok {
+								if nt := namedOf(pt); nt != nil && nt.Obj().Pkg() != nil && strings.HasSuffix(nt.Obj().Pkg().Path(), "hclsyntax") {
+									switch nt.Obj().Name() {
+									case want.syn:
+										hasWant = true
+									case "TupleConsExpr", "ObjectConsExpr":
+										other = nt.Obj().Name()
+									}
+								}
+							}
+						}
+						if hasWant && other != "" {
+							r.Add("E13.any-delegation", fn.Name, rg.pred+" asserts "+want.syn, p.Pos(container), Violated,
+								fmt.Sprintf("the rung for %s is reached for *hclsyntax.%s as well as *hclsyntax.%s (one type switch lets both through and the rung asserts neither): a %s value is written as *hclsyntax.%s only; the other literal kind must fall back to the generic decoder", rg.pred, other, want.syn, want.cons, want.syn), true)
+						}
+					}
+				}
+			}
 			// (c) element type handed down
 			cfn := containerFn
 			subject := rg.subject
